@@ -85,7 +85,7 @@ mod __verif_c38 {
         check_l2::<9>(2);
     }
 
-    // @harness tiers=thorough timeout=2400
+    // @harness tiers=experimental timeout=2400
     // @encodes physical::vector::dot
     // @bounds dimension 17 (two full chunks, so the f32 lane accumulators really add, + remainder of 1); |x| <= 2
     // @oracle as dot_dim9
@@ -95,7 +95,7 @@ mod __verif_c38 {
         check_dot::<17>(2);
     }
 
-    // @harness tiers=thorough timeout=2400
+    // @harness tiers=experimental timeout=2400
     // @encodes physical::vector::l2_sq
     // @bounds dimension 17; |x| <= 2
     // @oracle as l2_sq_dim9
@@ -103,6 +103,17 @@ mod __verif_c38 {
     #[kani::unwind(19)]
     fn l2_sq_dim17() {
         check_l2::<17>(2);
+    }
+
+    // @harness tiers=thorough timeout=2400
+    // @encodes physical::vector::dot, physical::vector::l2_sq
+    // @bounds dimension 16 (two full 8-lane chunks: the f32 lane accumulators really add, empty remainder); components in {-1, 0, 1}
+    // @oracle integer formulas as in dot_dim9 / l2_sq_dim9
+    #[kani::proof]
+    #[kani::unwind(18)]
+    fn dot_and_l2_dim16_unit_components() {
+        check_dot::<16>(1);
+        check_l2::<16>(1);
     }
 
     // @harness tiers=thorough timeout=2400
